@@ -102,14 +102,18 @@ func StartProxy(cfg *Config, seeds []string) (*Host, error) {
 			server.WithServerRetryTimeout(10),
 			server.WithDisableRedisSlave(cfg.DisableSlave),
 		)
-		err := core.Run(srv, "tcp://"+h.Addr,
+		var extra []core.Option
+		if cfg.SmallBuf {
+			extra = append(extra, core.WithSocketSendBuffer(8192), core.WithSocketRecvBuffer(8192))
+		}
+		err := core.Run(srv, "tcp://"+h.Addr, append(extra,
 			core.WithRedisServers(strings.Join(seeds, ",")),
 			core.WithRedisServerConnections(conns),
 			core.WithRedisPasswd(cfg.Password),
 			core.WithRedisRequestTimeout(cfg.TimeoutMs),
 			core.WithRedisMsgMaxLength(cfg.MaxLen),
 			core.WithRedisConnectTimeout(1000),
-		)
+		)...)
 		h.runDone <- err
 	}()
 
